@@ -18,6 +18,7 @@ import (
 	"github.com/vicanso/pike/config"
 	"github.com/vicanso/pike/location"
 	"github.com/vicanso/pike/server"
+	"github.com/vicanso/pike/store"
 	"pikeverif/internal/hx"
 )
 
@@ -33,9 +34,12 @@ func TestRaceStress(t *testing.T) {
 	seed := uint64(envInt("PV_SEED", 1))
 	n := envInt("PV_N", 4000) // iterations per worker
 	sum := hx.NewSummary("racestress", seed)
-	sum.Rule = "16 goroutines x n iterations of mixed traffic on a size-16 dispatcher (hot keys forced into one shard + cold keys): lookup + Get; fetchers complete with Cacheable(1 s)/HitForPass(1 s); hits are served with Fill under random Accept-Encoding and the decoded body must name the key; purges; server.Reset/GetCompress/GetLocations and location.Reset/Get reloads; under the Go race detector; non-trivial = iterations that hit a resident entry; distinct not measured (schedules are not reproducible): counted conservatively as number of workers"
+	sum.Rule = "16 goroutines x n iterations of mixed traffic on a size-16 dispatcher with a persistent (fake) store (6 hot keys forced into one shard + 24 cold keys: constant eviction and reload from the store): lookup + Get; fetchers complete with Cacheable(1-3 s)/HitForPass(1 s); hits are served with Fill under random Accept-Encoding and the decoded body must name the key; purges; server.Reset/GetCompress/GetLocations and location.Reset/Get reloads; under the Go race detector; non-trivial = iterations that hit a resident entry; distinct not measured (schedules are not reproducible): counted conservatively as number of workers"
 	const name = "stress"
-	cache.ResetDispatchers([]config.CacheConfig{{Name: name, Size: 16, HitForPass: "1s"}})
+	// persistent store behind the dispatcher: entries evicted from the 16 slots are reloaded from it
+	fs := &fakeStore{data: map[string][]byte{}}
+	store.VerifRegister("fake://stress", fs)
+	cache.ResetDispatchers([]config.CacheConfig{{Name: name, Size: 16, HitForPass: "1s", Store: "fake://stress"}})
 	defer cache.ResetDispatchers(nil)
 	disp := cache.GetDispatcher(name)
 	zones := disp.VerifZoneSize()
@@ -79,7 +83,7 @@ func TestRaceStress(t *testing.T) {
 							h := http.Header{}
 							h.Set("Content-Type", "text/plain")
 							body := bytes.Repeat(append(append([]byte{}, key...), '\n'), 8)
-							hc.Cacheable(&cache.HTTPResponse{StatusCode: 200, Header: h, RawBody: body}, 1)
+							hc.Cacheable(&cache.HTTPResponse{StatusCode: 200, Header: h, RawBody: body}, 1+r.Intn(3))
 						} else {
 							hc.HitForPass(1)
 						}
@@ -145,7 +149,7 @@ func TestRaceStress(t *testing.T) {
 	sum.Extra["wall_ms"] = time.Since(start).Milliseconds()
 	sum.Sample(map[string]interface{}{"workers": 16, "iterations_per_worker": n, "hits": hits.Load(), "fetches": fetches.Load(), "resident_at_end": resident})
 	if malformed.Load() > 0 {
-		sum.ImplViolations = append(sum.ImplViolations, map[string]interface{}{"property": "C20", "kind": "malformed-reply", "count": malformed.Load(), "first": firstBad.Load(), "workers": 16, "iterations": n, "seed": seed})
+		sum.ImplViolations = append(sum.ImplViolations, map[string]interface{}{"property": "C20+C08+C05", "kind": "malformed-reply", "count": malformed.Load(), "first": firstBad.Load(), "workers": 16, "iterations": n, "seed": seed})
 	}
 	if resident > 16 {
 		sum.ImplViolations = append(sum.ImplViolations, map[string]interface{}{"property": "C20+C11", "kind": "resident-exceeds-size", "resident": resident, "size": 16, "seed": seed})
